@@ -188,7 +188,7 @@ def check(ctx, rep):
     loops = [l for l in wake.discover(ctx) if l.owner is tex]
     wake.check_producers(ctx, rep, loops)
     rep.rule("R-WAKE-L", "the timeout thread re-reads its job list between clear() of its event and the next wait(): a job submitted while it computes its sleep is not slept over")
-    wake.check_loops(ctx, rep, loops)
+    wake.check_loops(ctx, rep, loops, components="state")
     ft = prog.fn("futures.timeout:f_timeout")
     ps, it = ctx.paths(ft, None, depth=0)
     for p in ps:
